@@ -314,7 +314,9 @@ def runPos (base : State) (payload : String) : String :=
   let get (p : String) : Option String := (fs.find? (·.startsWith p)).map (fun f => (f.drop p.length).toString)
   match (get "m=").bind Proto.hexDecode, (get "x").bind hexBytes with
   | some module, some bs =>
-    match Read.readStr { module := some module, hasEnv := true } bs with
+    -- h=1: the caller's cursor names no module; the `;; $MODULE name` first line of the text does (m= is that name)
+    let cfgModule := if get "h=" == some "1" then none else some module
+    match Read.readStr { module := cfgModule, hasEnv := true } bs with
     | .error e => "read-error " ++ errClass e
     | .ok ast =>
       match (eval evalFuel base 0 ast 1).1 with
